@@ -80,6 +80,26 @@ func NewGen(w *World, seed uint64, profile string) *Gen {
 	for _, o := range g.Owners {
 		g.setup = append(g.setup, Op{K: "payaddr", Creator: o, Did: o + 1})
 	}
+	if profile == "auth" {
+		// an adversary (account 6) runs its own node whose self-declared transaction addresses
+		// include its hot key (account 11) and the addresses of the honest gateways
+		g.Malformed = 10
+		g.Nodes = []int{1, 2, 3}
+		g.setup = nil
+		for _, i := range []int{1, 2, 3, 6} {
+			g.setup = append(g.setup, Op{K: "create", Creator: i})
+		}
+		for _, i := range []int{1, 2, 3} {
+			g.setup = append(g.setup, Op{K: "reset", Creator: i, Status: 15, PeerOk: &t})
+			g.setup = append(g.setup, Op{K: "addv", Creator: i, Size: 20_000_000})
+		}
+		g.setup = append(g.setup, Op{K: "reset", Creator: 6, Status: 15, PeerOk: &t, TxAddrs: []int{11 + 1, 1 + 1, 2 + 1, 3 + 1}})
+		g.setup = append(g.setup, Op{K: "reset", Creator: 1, Status: 15, PeerOk: &t, TxAddrs: []int{7 + 1}})
+		for _, o := range g.Owners {
+			g.setup = append(g.setup, Op{K: "payaddr", Creator: o, Did: o + 1})
+		}
+		g.setup = append(g.setup, Op{K: "payaddr", Creator: 11, Did: 11 + 1}) // the adversary's own DID
+	}
 	if profile == "lifecycle" {
 		g.Malformed = 5
 		// one provider that cannot afford collateral top-ups: it locks nearly all its coins in a delegation
@@ -419,6 +439,9 @@ func (g *Gen) tx() Op {
 	if g.Profile == "lifecycle" {
 		return g.lifecycleTx()
 	}
+	if g.Profile == "auth" && g.R.Chance(55) {
+		return g.authTx()
+	}
 	if g.Profile == "faults" && g.R.Chance(55) {
 		return g.faultTx()
 	}
@@ -745,6 +768,95 @@ func (g *Gen) lifecycleTx() Op {
 	}
 }
 
+// authTx: the adversary (node account 6, hot key 11, DID of account 11) replays every message
+// type against orders, shards and models of other parties.
+func (g *Gen) authTx() Op {
+	li := g.live()
+	r := g.R
+	adv := []int{6, 11}[r.Intn(2)]
+	advDid := 11 + 1
+	honest := g.Nodes[r.Intn(len(g.Nodes))]
+	var m *modeltypes.Metadata
+	if len(li.metas) > 0 {
+		m = &li.metas[r.Intn(len(li.metas))]
+	}
+	var o *ordertypes.Order
+	if len(li.orders) > 0 {
+		o = &li.orders[r.Intn(len(li.orders))]
+	}
+	switch r.Intn(12) {
+	case 0: // owner-signed proposal naming an honest gateway, submitted by the adversary through its own node
+		owner := g.Owners[r.Intn(len(g.Owners))]
+		d := g.newDataId()
+		return Op{K: "store", Creator: adv, Provider: 6 + 1, PropProvider: honest + 1, Signer: owner + 1, Owner: owner + 1, Duration: 3600, Replica: 1,
+			Timeout: 50, Alias: fmt.Sprintf("alias%d", g.dataSeq), DataId: d, CommitId: d, Size: 1000, Operation: 1}
+	case 1: // hot key of honest node 1 claiming node 1 for a proposal naming another gateway
+		owner := g.Owners[r.Intn(len(g.Owners))]
+		d := g.newDataId()
+		return Op{K: "store", Creator: 7, Provider: 1 + 1, PropProvider: 2 + 1, Signer: owner + 1, Owner: owner + 1, Duration: 3600, Replica: 1,
+			Timeout: 50, Alias: fmt.Sprintf("alias%d", g.dataSeq), DataId: d, CommitId: d, Size: 1000, Operation: 1}
+	case 2: // sponsor: somebody else's payment DID
+		owner := g.Owners[r.Intn(len(g.Owners))]
+		d := g.newDataId()
+		return Op{K: "store", Creator: adv, Provider: honest + 1, Signer: owner + 1, Owner: owner + 1, PayDid: g.Owners[r.Intn(len(g.Owners))] + 1, Duration: 3600, Replica: 1,
+			Timeout: 50, Alias: fmt.Sprintf("alias%d", g.dataSeq), DataId: d, CommitId: d, Size: 1000, Operation: 1}
+	case 3: // update of a victim's model signed by the adversary's DID with a commit id embedding the data id
+		if m == nil {
+			break
+		}
+		return Op{K: "store", Creator: 6, Provider: 6 + 1, Signer: advDid, Owner: advDid, Duration: 3600, Replica: 1, Timeout: 50, Alias: m.Alias, DataId: m.DataId,
+			CommitId: m.Commit + "|" + m.DataId, Size: 1000, Operation: uint32(1 + r.Intn(2))}
+	case 4: // cancel a victim's order through the adversary's node (which lists the gateways as its tx addresses)
+		if o == nil {
+			break
+		}
+		return Op{K: "cancel", Creator: adv, Provider: 6 + 1, OrderId: o.Id}
+	case 5: // complete somebody's shard
+		for _, s := range li.shards {
+			if s.Status == ordertypes.ShardWaiting {
+				return Op{K: "complete", Creator: adv, Provider: []int{6 + 1, g.acctIndex(s.Sp) + 1}[r.Intn(2)], OrderId: s.OrderId, Size: s.Size_}
+			}
+		}
+	case 6:
+		if o == nil {
+			break
+		}
+		return Op{K: "ready", Creator: adv, Provider: []int{6 + 1, g.acctIndex(o.Provider) + 1}[r.Intn(2)], OrderId: o.Id}
+	case 7:
+		if m == nil {
+			break
+		}
+		own := g.ownerIndexOfDid(m.Owner)
+		op := Op{K: "terminate", Creator: adv, Provider: 6 + 1, Signer: advDid, Owner: advDid, DataId: m.DataId}
+		if r.Chance(40) {
+			op.Signer, op.Owner, op.Tamper = own+1, own+1, []string{"sig", "owner"}[r.Intn(2)]
+		}
+		return op
+	case 8:
+		if m == nil {
+			break
+		}
+		op := Op{K: "renew", Creator: adv, Provider: 6 + 1, Signer: advDid, Owner: advDid, Duration: 3600, Timeout: 50, Data: []string{m.DataId}}
+		return op
+	case 9:
+		if m == nil {
+			break
+		}
+		return Op{K: "perm", Creator: adv, Provider: 6 + 1, Signer: advDid, Owner: advDid, DataId: m.DataId, RwDids: []int{advDid}}
+	case 10:
+		if m == nil {
+			break
+		}
+		return Op{K: "migrate", Creator: adv, Provider: []int{6 + 1, honest + 1}[r.Intn(2)], Data: []string{m.DataId}}
+	case 11:
+		// the adversary's own legitimate activity: its own model
+		d := g.newDataId()
+		return Op{K: "store", Creator: 6, Provider: 6 + 1, Signer: advDid, Owner: advDid, Duration: 3600, Replica: 1, Timeout: 50,
+			Alias: fmt.Sprintf("adv%d", g.dataSeq), DataId: d, CommitId: d, Size: 1000, Operation: 1}
+	}
+	return Op{K: "claim", Creator: adv}
+}
+
 // faultTx files, confirms and clears fault reports: fishmen (accounts 1, 2), ordinary nodes and
 // non-nodes; matching and mismatching order / data / shard / commit ids; expired shards; duplicates.
 func (g *Gen) faultTx() Op {
@@ -771,7 +883,7 @@ func (g *Gen) faultTx() Op {
 		}
 		prov = g.acctIndex(s.Sp) + 1
 		f := FaultIn{DataId: ord.DataId, OrderId: ord.Id, ShardId: s.Id, CommitId: "no-such-commit", Provider: prov}
-		switch r.Intn(10) {
+		switch r.Intn(12) {
 		case 0:
 			f.CommitId = ord.Commit // report: skipped (contains); recover: required
 		case 1:
@@ -784,7 +896,7 @@ func (g *Gen) faultTx() Op {
 			f.Provider = 1 + r.Intn(6)
 		case 5:
 			f.CommitId = ""
-		case 6:
+		case 6, 10, 11:
 			// a live shard the same provider holds for a *different* order
 			for _, s2 := range li.shards {
 				if s2.Sp == s.Sp && s2.Id != s.Id {
